@@ -506,6 +506,20 @@ Theorem C03_round_sum_any_input : forall B, 2 <= B -> forall p m sig e low lp is
 Proof. exact rrs_general. Qed.
 Print Assumptions C03_round_sum_any_input.
 
+(** the class is exact at the level of repr_round_sum (a correct result is never in it) and empty for operands that
+    fit the precision: the any-length theorems contain C03_add / C03_sub *)
+Theorem C03_round_sum_class_is_exact : forall B, 2 <= B -> forall p m sig e low lp is_sub,
+  1 <= p -> 0 <= lp -> Z.abs low < B ^ lp ->
+  rounded_sum B p m (sig * B ^ lp + low) (e - lp) (repr_round_sum B p m sig e low lp is_sub) ->
+  rrs_short B p sig low lp is_sub = false.
+Proof. exact rrs_short_of_rounded. Qed.
+Print Assumptions C03_round_sum_class_is_exact.
+
+Theorem C03_add_class_empty_when_operands_fit : forall B, 2 <= B -> forall p s1 e1 s2 e2 sg,
+  1 <= p -> dlen B s1 <= p -> dlen B s2 <= p -> add_short_class B p s1 e1 s2 e2 sg = false.
+Proof. exact add_short_class_fits. Qed.
+Print Assumptions C03_add_class_empty_when_operands_fit.
+
 Theorem C03_add_overlong_refuted :
   add_short_class 10 2 11 5 1099999 0 Negative = true /\
   ctx_sub_fixed_x 10 2 MZero 11 5 1099999 0 = AInexact 0 3 SubOne /\
